@@ -756,15 +756,31 @@ def check_c09(chk, rng):
                       kinds=("pass", "add", "acc", "count", "delay", "echo", "echo", "sum2", "sumu", "sample", "sample2", "sampleu", "lsum", "lsumv"))
     cases, groups = [], []
     for p, pred in fam:
-        gs = P.candidate_groups(p)
+        gs = P.candidate_groups(p, max_ext=3)
         rng.shuffle(gs)
         # prefer groups containing self-scheduling nodes (timers, delays, sources)
         gs.sort(key=lambda g: -sum(1 for i in g[0] if p["nodes"][i - 1]["kind"] in ("timer", "delay", "src")))
         for g in gs[:3]:
             idx = []
-            for mode, depth in (("inline", 1), ("nested", 1), ("nested", 2)):
-                idx.append(len(cases))
-                cases.append(Case(p, pred, P.render(p, group=g, mode=mode, depth=depth), "%s/%d" % (mode, depth)))
+            ext = g[1]
+            # captured outer ports: the body references some of its outside producers directly instead of declaring
+            # them as boundary inputs (every split of the outside producers with <= 2 declared ones is a presentation)
+            splits = [()] if len(ext) <= 2 else []
+            if ext:
+                k = rng.randint(1, len(ext))
+                sub = tuple(sorted(rng.sample(ext, k)))
+                if len(ext) - len(sub) > 2:
+                    sub = tuple(sorted(ext[:len(ext) - 2]))
+                splits.append(sub)
+                if len(ext) == 2 and len(sub) == 2:
+                    splits.append((ext[rng.randint(0, 1)],))      # one declared + one captured
+            for outer in splits:
+                for mode, depth in (("inline", 1), ("nested", 1), ("nested", 2)):
+                    if outer and mode == "inline" and idx:
+                        continue
+                    idx.append(len(cases))
+                    cases.append(Case(p, pred, P.render(p, group=g, mode=mode, depth=depth, outer=outer),
+                                      "%s/%d%s" % (mode, depth, ("+captured" + "".join(str(j) for j in outer)) if outer else "")))
             groups.append(idx)
     execute(cases)
     verdicts = validate(cases, chk, "c09")
